@@ -163,6 +163,7 @@ func relName(f *ssa.Function) string {
 // ConfigureEmittedWorld sets the call policies used for emitted packages.
 func ConfigureEmittedWorld(w *World) {
 	w.CheckOverflow = false
+	w.InlineSmall = true
 	w.DynamicPolicy = func(e *FuncEnc, in ssa.Instruction, name string) CallKind {
 		name = strings.ReplaceAll(name, "emitted.", "")
 		switch {
@@ -187,6 +188,15 @@ func ConfigureEmittedWorld(w *World) {
 			return CallPure
 		}
 		return CallHavoc
+	}
+	w.MapValueFact = func(e *FuncEnc, mt *types.Map, val, has string) string {
+		if sl, ok := mt.Elem().Underlying().(*types.Slice); ok {
+			if b, ok := sl.Elem().Underlying().(*types.Basic); ok && b.Kind() == types.String {
+				e.Assumed["W1: a key present in url.Values / http.Header has at least one value"] = true
+				return implies(has, sx(">", sx("sl_len", val), "0"))
+			}
+		}
+		return ""
 	}
 	w.GlobalFact = func(e *FuncEnc, g *ssa.Global, val string) string {
 		if g.Name() == "LogError" {
